@@ -3427,6 +3427,14 @@ class DynamicTimeSeriesBucket(DynamicBucket):
 
     def assess(self, example):
         seq_len = self.len_key(example)
+        if (
+                self.max_total_size is not None
+                and (len(self.data) + 1) * max(self.max_len, seq_len)
+                > self.max_total_size
+        ):
+            # A longer example increases the padded size of all examples
+            # that are already in the bucket.
+            return False
         return self.lower_bound <= seq_len <= self.upper_bound
 
     def _append(self, example):
